@@ -4,7 +4,7 @@
 # without it, the pinned suite has no new failure.  Writes /verif/seeded/<pid>/{patch.diff,demo.py,notes.md,validation.txt}.
 set -u
 P=$1; SRC=${2:-/tmp/seed_$P}
-OUT=/verif/seeded/$P; mkdir -p $OUT
+OUT=/verif/seeded/${3:-$P}; mkdir -p $OUT
 S=$(mktemp -d /var/tmp/seedval.XXXXXX)
 trap 'rm -rf "$S"' EXIT
 rsync -a --exclude .git /repo/ $S/repo/
